@@ -861,7 +861,39 @@ def oracle_two_models(m: onnx.ModelProto, seed: int) -> list[tuple[str, str]]:
     return fails
 
 
-def oracle_compose(m: onnx.ModelProto, form: str, seed: int) -> list[tuple[str, str]]:
+AMBIENTS = ["vp:NONE", "vp:REFERENCE", "vp:ONNXRUNTIME", "tw:NONE", "tw:CRITICAL", "tw:INITIAL", "tw:OUTPUTS", "oo:plain", "oo:promo"]
+
+
+def ambient_ctx(name: Optional[str]):
+    """One documented ambient setting of spox (`spox._future`): value propagation backend, type warning level, operator
+    overloading. Nothing the property says depends on them: the same verdicts are demanded inside each."""
+    import contextlib
+
+    if name is None:
+        return contextlib.nullcontext()
+    from spox import _future as F
+
+    kind, val = name.split(":")
+    if kind == "vp":
+        return F.value_prop_backend(getattr(F.ValuePropBackend, val))
+    if kind == "tw":
+        return F.type_warning_level(getattr(F.TypeWarningLevel, val))
+    return F.operator_overloading(L.opset_module(17), type_promotion=(val == "promo"))
+
+
+def oracle_compose(m: onnx.ModelProto, form: str, seed: int, ambient: Optional[str] = None) -> list[tuple[str, str]]:
+    if ambient is None:
+        return _oracle_compose(m, form, seed)
+    try:
+        cm = ambient_ctx(ambient)
+    except Exception as e:  # noqa: BLE001 - the setting does not exist on this tree: not a verdict
+        return _oracle_compose(m, form, seed)
+    with cm:
+        fs = _oracle_compose(m, form, seed)
+    return [(k, f"[inside {ambient}] {w}") for k, w in fs]
+
+
+def _oracle_compose(m: onnx.ModelProto, form: str, seed: int) -> list[tuple[str, str]]:
     """Build an outer program around inline(m) and compare with m itself under onnxruntime.
     Returns a list of (key, description) failures of the property. Model-free."""
     from spox import Tensor, argument, build, inline
@@ -1248,8 +1280,15 @@ def oracle_hostile_names(m: onnx.ModelProto, seed: int, variants=None) -> list[t
     return fails
 
 
-def oracle_errors(m: onnx.ModelProto, seed: int) -> list[tuple[str, str]]:
+def oracle_errors(m: onnx.ModelProto, seed: int, ambient: Optional[str] = None) -> list[tuple[str, str]]:
     """Wrong calls must raise TypeError at the call; local functions => ValueError. Model-free."""
+    if ambient is not None:
+        try:
+            cm = ambient_ctx(ambient)
+        except Exception:  # noqa: BLE001
+            return oracle_errors(m, seed)
+        with cm:
+            return [(k, f"[inside {ambient}] {w}") for k, w in oracle_errors(m, seed)]
     from spox import argument, inline
 
     rng = random.Random(seed)
@@ -1835,6 +1874,7 @@ class _Rec:
         self.counts: list = []
         self.samples: list = []
         self.forms: list = []
+        self.ambients: list = []
 
     def failure(self, key, what, case):
         self.failures.append((key, what, case))
@@ -1854,8 +1894,9 @@ def _oracle_one(rec: _Rec, thorough: bool, mi: int, m, meta, snap: bytes, rng: r
     if m.SerializeToString(deterministic=True) != snap:
         raise core_infra("a model of the case list changed although only copies are handed out")
     seed0 = rng.randrange(1 << 30)
-    for key, what in oracle_errors(fresh(snap), seed0):
-        ck.failure(key, what, {"kind": "errors", "model": L.to_b64(m), "seed": seed0, "summary": L.summary(m)})
+    amb0 = rng.choice(AMBIENTS) if rng.random() < 0.3 else None
+    for key, what in oracle_errors(fresh(snap), seed0, amb0):
+        ck.failure(key, what, {"kind": "errors", "model": L.to_b64(m), "seed": seed0, "ambient": amb0, "summary": L.summary(m)})
     if not meta["runnable"]:
         seed1 = rng.randrange(1 << 30)
         for key, what in oracle_build_only(fresh(snap), seed1):
@@ -1888,11 +1929,14 @@ def _oracle_one(rec: _Rec, thorough: bool, mi: int, m, meta, snap: bytes, rng: r
         if form == "chained" and "no-chain" in meta["features"]:
             continue
         seed1 = rng.randrange(1 << 30)
-        fs = oracle_compose(fresh(snap), form, seed1)
+        amb = rng.choice(AMBIENTS) if rng.random() < (0.5 if thorough else 0.3) else None
+        fs = oracle_compose(fresh(snap), form, seed1, amb)
         rec.forms.append(form)
+        if amb:
+            rec.ambients.append(amb)
         ck.count(("compose", mi, form) if len(m.graph.node) >= 1 else None)
         for key, what in fs:
-            ck.failure(key, what, {"kind": "compose", "form": form, "model": L.to_b64(m), "seed": seed1,
+            ck.failure(key, what, {"kind": "compose", "form": form, "model": L.to_b64(m), "seed": seed1, "ambient": amb,
                                    "summary": L.summary(m), "features": meta["features"]})
     ck.sample({"model": L.summary(m), "features": meta["features"]}, 4)
 
@@ -2008,6 +2052,7 @@ def _oracle_phase(ck, models, snaps, rng, scope_obs, name_cases=None):
         pending = nxt
 
     form_hist: dict[str, int] = {}
+    amb_hist: dict[str, int] = {}
     n_oracle = 0
     last_ort: dict = {}
     hostile: dict[str, int] = {}
@@ -2028,6 +2073,8 @@ def _oracle_phase(ck, models, snaps, rng, scope_obs, name_cases=None):
         for f in r["forms"]:
             form_hist[f] = form_hist.get(f, 0) + 1
             n_oracle += 1
+        for a_ in r.get("ambients", []):
+            amb_hist[a_] = amb_hist.get(a_, 0) + 1
     # per-child cumulative tallies: the last frame of each child carries its totals
     by_child: dict[int, dict] = {}
     for mi in idx:
@@ -2051,7 +2098,7 @@ def _oracle_phase(ck, models, snaps, rng, scope_obs, name_cases=None):
         raise core_infra("oracle worker: " + infra[0][-1500:])
     ck.cov.update({"oracle_compositions": n_oracle, "oracle_forms": form_hist, "hostile_outer_names": dict(sorted(hostile.items())),
                    "onnxruntime_retries_without_optimiser": last_ort.get("unoptimised", 0),
-                   "onnxruntime_process_aborts": last_ort.get("aborted", 0), "oracle_workers": N_WORKERS,
+                   "onnxruntime_process_aborts": last_ort.get("aborted", 0), "oracle_workers": N_WORKERS, "compositions_inside_ambient_settings": dict(sorted(amb_hist.items())),
                    "oracle_worker_crashes": len(crashed)})
 
 
@@ -2098,9 +2145,9 @@ def replay(ck: core.Check, doc) -> bool:
         elif case["kind"] == "build-only":
             fs = oracle_build_only(m, case["seed"])
         elif case["kind"] == "errors":
-            fs = oracle_errors(m, case["seed"])
+            fs = oracle_errors(m, case["seed"], case.get("ambient"))
         else:
-            fs = oracle_compose(m, case["form"], case["seed"])
+            fs = oracle_compose(m, case["form"], case["seed"], case.get("ambient"))
     for key, what in fs:
         print(f"{key}: {what}")
     known = {f["key"] for f in ck._findings if f["property"] == "C08" and f.get("status") == "known"}
